@@ -38,6 +38,29 @@ fn main() {
                     let e = match XEnc::deserialize(&unhex(f[2])) { Ok(e) => e, Err(_) => return "UNPARSABLE".into() };
                     let c = opt(f[3]).unwrap_or_default();
                     match <Covercrypt as PkeAc<32, Aes256Gcm>>::decrypt(&cc, u, &(e, c)) { Ok(Some(p)) => format!("OK:{}", if p.is_empty() { "empty".to_string() } else { hex(&p) }), Ok(None) => "NONE".into(), Err(_) => "ERR".into() } }
+                // PKEBIG <len>: one PKE encryption of a len-byte plaintext (megabytes), then STRUCTURAL mutants of the symmetric
+                // part at block granularity, for every candidate block size 2^k + d (k = 10..21, d in {0, 12, 16, 28}):
+                // truncation after 1 and 2 blocks, first two blocks swapped, first block dropped, first block repeated,
+                // last block dropped; plus ordinary tail truncations and bit flips. Prints the accepted mutants (none expected).
+                "PKEBIG" => {
+                    let n: usize = f[1].parse().unwrap();
+                    let pt: Vec<u8> = (0..n).map(|i| (i as u32).wrapping_mul(2654435761).to_le_bytes()[1]).collect();
+                    let (e, c) = <Covercrypt as PkeAc<32, Aes256Gcm>>::encrypt(&cc, &mpk, &pol, &pt).unwrap();
+                    let dec = |c2: Vec<u8>| -> Option<bool> { match <Covercrypt as PkeAc<32, Aes256Gcm>>::decrypt(&cc, &good, &(e.clone(), c2)) { Ok(Some(p)) => Some(*p == pt), _ => None } };
+                    let mut acc: Vec<String> = vec![]; let mut tried = 0usize;
+                    if dec(c.clone()) != Some(true) { acc.push("round trip of the large plaintext failed".into()); }
+                    for k in 10..22usize { for d in [0usize, 12, 16, 28] {
+                        let b = (1usize << k) + d; if 2 * b > c.len() { continue; }
+                        let muts: Vec<(&str, Vec<u8>)> = vec![
+                            ("truncated after one block", c[..b].to_vec()), ("truncated after two blocks", c[..2 * b].to_vec()),
+                            ("first two blocks swapped", [&c[b..2 * b], &c[..b], &c[2 * b..]].concat()), ("first block dropped", c[b..].to_vec()),
+                            ("first block repeated", [&c[..b], &c[..]].concat()), ("last block dropped", c[..c.len() - (c.len() % b).max(1)].to_vec())];
+                        for (w, m) in muts { tried += 1; if m != c { if let Some(same) = dec(m) { acc.push(format!("{w} (block {b} bytes): accepted, plaintext {}", if same { "unchanged" } else { "DIFFERENT" })); } } }
+                    } }
+                    for cut in [1usize, 15, 16, 17, 28, 29] { tried += 1; if dec(c[..c.len() - cut].to_vec()).is_some() { acc.push(format!("truncated by {cut} bytes: accepted")); } }
+                    for pos in [0usize, 11, 12, c.len() / 2, c.len() - 17, c.len() - 1] { tried += 1; let mut m = c.clone(); m[pos] ^= 4; if dec(m).is_some() { acc.push(format!("bit flipped at {pos}: accepted")); } }
+                    format!("BIG {} {} {}", c.len(), tried, if acc.is_empty() { "-".to_string() } else { acc.join(" ; ").replace(' ', "_") })
+                }
                 // MATRIX R: a richer structure (classic and hybridized attributes, a hierarchy), six keys x six policies
                 // (single, classic multi-target, hybridized multi-target, MIXED classic+hybridized, conjunctions), each pair
                 // R times through the PKE and the header layer; one line per trial, judged by the caller
@@ -62,7 +85,23 @@ fn main() {
                             let a = match <Covercrypt as PkeAc<32, Aes256Gcm>>::decrypt(&cc, k, &ct) { Ok(Some(p)) => if *p == pt { "OK" } else { "WRONG" }, Ok(None) => "NONE", Err(_) => "ERR" };
                             let b = match hd.decrypt(&cc, k, Some(b"ad")) { Ok(Some(c)) => if *c.secret == *hs && c.metadata.as_deref() == Some(&b"md"[..]) { "OK" } else { "WRONG" }, Ok(None) => "NONE", Err(_) => "ERR" };
                             o += &format!("MX {ki} {ei} {rep} {a} {b};");
-                        } } }
+                        }
+                        // the encapsulation INSIDE the ciphertext / header altered (a tag byte, a byte of the last recipient's
+                        // share, a byte of a trap): no key may get anything out of it - in particular not another secret
+                        if rep < 2 {
+                            let eb = ct.0.serialize().unwrap().to_vec();
+                            for (what, pos) in [("tag", 3usize), ("tag-end", 15), ("trap", 20), ("last-share", eb.len() - 1), ("last-share-start", eb.len() - 32)] {
+                                let mut mb = eb.clone(); mb[pos] ^= 0x20;
+                                if let Ok(me) = XEnc::deserialize(&mb) {
+                                    let h0 = EncryptedHeader { encapsulation: me.clone(), encrypted_metadata: None };
+                                    for (ki, k) in keys.iter().enumerate() {
+                                        if let Ok(Some(_)) = <Covercrypt as PkeAc<32, Aes256Gcm>>::decrypt(&cc, k, &(me.clone(), ct.1.clone())) { o += &format!("MXT {ki} {ei} pke-{what} OPENED;"); }
+                                        if let Ok(Some(_)) = h0.decrypt(&cc, k, None) { o += &format!("MXT {ki} {ei} header-{what} OPENED;"); }
+                                    }
+                                }
+                            }
+                        }
+                        } }
                     o }
                 "HDR" => { let md = opt(f[1]); let ad = opt(f[2]);
                     let (s, h) = EncryptedHeader::generate(&cc, &mpk, &pol, md.as_deref(), ad.as_deref()).unwrap();
@@ -71,6 +110,34 @@ fn main() {
                     let e = match XEnc::deserialize(&unhex(f[2])) { Ok(e) => e, Err(_) => return "UNPARSABLE".into() };
                     let h = EncryptedHeader { encapsulation: e, encrypted_metadata: opt(f[3]) }; let ad = opt(f[4]);
                     match h.decrypt(&cc, u, ad.as_deref()) { Ok(Some(c)) => format!("OK:{}:{}", hex(&*c.secret), show(&c.metadata)), Ok(None) => "NONE".into(), Err(_) => "ERR".into() } }
+                // HDRBIG <len>: a header with len bytes of metadata (tens of kilobytes to megabytes): serialize / deserialize /
+                // decrypt round trip, and the returned secret must not open ANY record of the encrypted metadata, whatever
+                // the segment size a chunked implementation may use
+                "HDRBIG" => {
+                    use cosmian_crypto_core::{Dem, FixedSizeCBytes, Instantiable, Nonce, SymmetricKey};
+                    let n: usize = f[1].parse().unwrap();
+                    let md: Vec<u8> = (0..n).map(|i| (i as u32).wrapping_mul(40503).to_le_bytes()[1]).collect();
+                    let (s, h) = EncryptedHeader::generate(&cc, &mpk, &pol, Some(&md), Some(b"ad")).unwrap();
+                    let ser = h.serialize().unwrap(); let mut pb: Vec<String> = vec![];
+                    if ser.len() != h.length() { pb.push("length() != serialize().len()".into()); }
+                    match EncryptedHeader::deserialize(&ser) {
+                        Err(e) => pb.push(format!("the serialized header cannot be read back: {e}")),
+                        Ok(h2) => { if h2 != h { pb.push("deserializes to another header".into()); }
+                            match h2.decrypt(&cc, &good, Some(b"ad")) { Ok(Some(c)) => { if *c.secret != *s { pb.push("other secret".into()); } if c.metadata.as_deref() != Some(&md[..]) { pb.push("other metadata".into()); } }
+                                Ok(None) => pb.push("authorized key gets 'not authorized'".into()), Err(e) => pb.push(format!("decrypt fails: {e}")) }
+                            if !matches!(h2.decrypt(&cc, &good, Some(b"other")), Err(_)) { pb.push("opens with other authentication data".into()); }
+                            if !matches!(h2.decrypt(&cc, &bad, Some(b"ad")), Ok(None)) { pb.push("unauthorized key is not refused".into()); } }
+                    }
+                    let emd = h.encrypted_metadata.clone().unwrap();
+                    let key = SymmetricKey::<32>::try_from_bytes((*s).clone()).unwrap();
+                    let mut opened = false;
+                    let mut sizes: Vec<usize> = vec![emd.len()]; for k in 10..22usize { for d in [28usize, 0] { sizes.push((1 << k) + d); } }
+                    for rs in sizes { let mut off = 0; while off + 28 <= emd.len() { let end = (off + rs).min(emd.len());
+                        if let Ok(nn) = Nonce::<12>::try_from_slice(&emd[off..off + 12]) { for a in [Some(&b"ad"[..]), None] { if Aes256Gcm::new(&key).decrypt(&nn, &emd[off + 12..end], a).is_ok() { opened = true; } } }
+                        off += rs; } }
+                    if opened { pb.push("the secret handed to the caller decrypts (part of) the encrypted metadata".into()); }
+                    format!("HB {} {}", ser.len(), if pb.is_empty() { "-".to_string() } else { pb.join(" ; ").replace(' ', "_") })
+                }
                 "HDRKEY" => { let md = opt(f[1]).unwrap_or_default(); let ad = opt(f[2]);
                     // does the SECRET RETURNED TO THE CALLER decrypt the encrypted metadata when used as the AES key?
                     use cosmian_crypto_core::{Dem, FixedSizeCBytes, Instantiable, Nonce, SymmetricKey};
